@@ -63,6 +63,7 @@ func LoadRT(ctx *core.Ctx, goos, goarch string) *RT {
 	}
 	r.Pkg = v.SSA[v.Pkgs[0].PkgPath]
 	r.Fns = load.SrcFuncs(r.Pkg)
+	computeAllocators(r.Fns)
 	chaResolve := ssax.Resolver(r.Pkg)
 	sites := v.VTASites(r.Pkg)
 	// interface calls are resolved with the VTA call graph (type-flow based),
@@ -209,10 +210,42 @@ func (r *RT) FieldAccesses(typ, field string) []FieldAccess {
 // shared, so lock rules exempt it.
 func FreshBase(v ssa.Value) bool {
 	v = ssax.Strip(v)
-	if a, ok := v.(*ssa.Alloc); ok {
-		return a.Heap || true
+	if _, ok := v.(*ssa.Alloc); ok {
+		return true
+	}
+	if c, ok := v.(*ssa.Call); ok {
+		if f := c.Call.StaticCallee(); f != nil && allocatorFns[f] {
+			return true
+		}
 	}
 	return false
+}
+
+// allocatorFns: functions of the analysed package whose every return hands out
+// an object allocated by that very call (helper constructors). The result of a
+// call to one is as fresh as an allocation in the caller.
+var allocatorFns = map[*ssa.Function]bool{}
+
+func computeAllocators(fns []*ssa.Function) {
+	allocatorFns = map[*ssa.Function]bool{}
+	for _, fn := range fns {
+		if fn.Signature.Results().Len() != 1 {
+			continue
+		}
+		if _, isPtr := fn.Signature.Results().At(0).Type().Underlying().(*types.Pointer); !isPtr {
+			continue
+		}
+		n, ok := 0, true
+		for _, vs := range ReturnedValues(fn) {
+			n++
+			if _, isAl := ssax.Strip(vs[0]).(*ssa.Alloc); !isAl {
+				ok = false
+			}
+		}
+		if ok && n > 0 {
+			allocatorFns[fn] = true
+		}
+	}
 }
 
 // SendSite is a channel send, stand-alone or as a select communication.
